@@ -206,3 +206,18 @@ Lemma ex_short_round_trip_lemma :
       | _, _, _ => false
       end)) = true.
 Proof. vm_compute. reflexivity. Qed.
+
+(** * convert_to_AUTOUGH2 on an already converted model: the short output is rebuilt from the (now empty)
+    history lists, so its block / connection lists are gone -- the reason the [type] setter does nothing
+    when the type is unchanged *)
+Theorem to_autough2_twice_lemma mp mp' sim eos sim' eos' d d' d'' :
+  convert_to_AUTOUGH2 mp sim eos d = Ok d' -> convert_to_AUTOUGH2 mp' sim' eos' d' = Ok d'' ->
+  so_block (short_output d'') = None /\ so_conn (short_output d'') = None /\ so_freq (short_output d'') = None.
+Proof.
+  intros H H2. pose proof (to_autough2_mirror_lemma _ _ _ _ _ H) as M.
+  destruct M as (_ & _ & _ & Hb & Hc & _).
+  pose proof (to_autough2_mirror_lemma _ _ _ _ _ H2) as M2.
+  destruct M2 as (_ & _ & _ & _ & _ & _ & _ & _ & _ & _ & _ & _ & _ & _ & _ & _ & _ & _ & _ & _ & _ & _ & _ & Hs & _).
+  rewrite Hs. unfold au_short. cbn [so_freq so_block so_conn].
+  unfold history_blocks_to_short, history_conns_to_short. rewrite Hb, Hc. cbn. repeat split.
+Qed.
